@@ -21,7 +21,7 @@ import (
 const T = 2
 const allowanceNs = int64(4100 * time.Millisecond)
 
-var rtAlphabet = []string{"next", "response", "response-stale", "response-unknown", "error", "init-error", "restore-next", "restore-error", "unknown-route", "wrong-method"}
+var rtAlphabet = []string{"next", "response", "response-broken", "response-stale", "response-unknown", "error", "init-error", "restore-next", "restore-error", "unknown-route", "wrong-method"}
 var extAlphabet = []string{"register", "register-bogus-event", "register-again", "next", "next-bad-id", "init-error", "exit-error", "unknown-route"}
 var terminals = []string{"loop", "stall", "exit0", "exit1", "sig9"}
 
@@ -139,6 +139,13 @@ func (s scen) config(rp **rec) *stack.Config {
 				}
 				r.posted[id] = append(r.posted[id], body)
 				rt.Response(id, []byte(body))
+			case "response-broken":
+				// the upload breaks off after a fragment: not a payload the runtime posted (a caller must never get it)
+				id := cur
+				if id == "" {
+					id = "11111111-1111-1111-1111-111111111111"
+				}
+				rt.ResponseBroken(id, []byte(fmt.Sprintf(`"fragment-%d`, r.seq)))
 			case "response-stale":
 				r.posted[stale] = append(r.posted[stale], body)
 				rt.Response(stale, []byte(body))
